@@ -213,3 +213,21 @@ MANIFEST_TEXT['C16'] = dict(
                'module shape; all entries of convertImportv2.',
     level_note='Trusted: CrossHair/z3, PLY. The transliteration function is part of the harness.')
 _finalise()
+
+PROPS['C02'] = dict(
+    modules=['harness.c02_tree'], level='other', files=['pysmi/parser/smi.py', 'pysmi/parser/dialect.py', 'pysmi/lexer/smi.py'],
+    explanation=XH + '. C02: sentence families for all declaration kinds with symbolic optional parts, list lengths, unbounded numbers and one '
+                'symbolic string go through the real LR parser; a layout-independent leaf oracle checks that every written value is in the tree. '
+                'Layout half: one-step invariants of the real lexer on symbolic text through a regex shim + z3 regex lemmas.',
+    functions=['ply.yacc.LRParser.parse + all p_* actions of pysmi.parser.smi.SmiV2Parser', 'ply.lex.Lexer.token + all t_* actions of pysmi.lexer.smi.SmiV2Lexer'],
+    stubs=['FakeLexer (tree half)', 'ShimRe: pure-Python matcher interpreting the real rule patterns (layout half)'],
+    bounds='lists <=3, <=2 modules per file, <=3 declarations, numbers unbounded, one symbolic string len<=3/4; lexer steps on text len<=3/5',
+    outside=['lists longer than 3', 'PLY and re themselves', 'arguments of SUBJECT-CATEGORIES, compliance OBJECT refinements, AGENT-CAPABILITIES '
+             'SUPPORTS/INCLUDES/VARIATION (known finding: parsed and dropped)'],
+    assumptions=[])
+MANIFEST_TEXT['C02'] = dict(
+    technique='CrossHair symbolic execution of the real LR parser on model sentences (leaf oracle) and of the real lexer loop on symbolic text via a regex shim; z3 regex lemmas',
+    smt=True,
+    level_text='Tree half solver-exhaustive within bounds for every declaration kind; layout half: single lexer step from any state for every text up to the bound.',
+    level_note='Trusted: CrossHair/z3, PLY driver, re (shim is differential-tested against re on the repo\'s MIB texts every run).')
+_finalise()
